@@ -318,13 +318,15 @@ func crashCase(t *testing.T, run *vh.Run, r *vh.Rand, store int, target string, 
 	if oldPresent {
 		oldTerm = vh.Some(vh.Str(string(old)))
 	}
-	term := fmt.Sprintf("CCrash %d %s %s %s\n  %s\n  [%s]", store, vh.Str(target), oldTerm, vh.Str(string(nw)), coqOps(ops), strings.Join(terms, ";\n   "))
-	js := Case{Kind: "crash", Store: store, Target: target, Old: old, OldPresent: oldPresent, New: nw, Ops: ops, Points: pts,
-		OldCanon: oldCanon, NewCanon: newCanon}
-	if len(pts) > 50 { // keep cases.json small: the replayable part is ops + old; points are re-derivable
-		js.Points = pts[:50]
+	// one Coq case per chunk of points (the shards are evaluated in parallel)
+	const chunk = 100
+	for lo := 0; lo < len(pts); lo += chunk {
+		hi := min(lo+chunk, len(pts))
+		term := fmt.Sprintf("CCrash %d %s %s %s\n  %s\n  [%s]", store, vh.Str(target), oldTerm, vh.Str(string(nw)), coqOps(ops), strings.Join(terms[lo:hi], ";\n   "))
+		js := Case{Kind: "crash", Store: store, Target: target, Old: old, OldPresent: oldPresent, New: nw, Ops: ops, Points: pts[lo:hi],
+			OldCanon: oldCanon, NewCanon: newCanon}
+		run.Add(term, js, hi-lo > 3)
 	}
-	run.Add(term, js, len(pts) > 3)
 }
 
 // ---------- one chain of restarts under strace ----------
